@@ -139,6 +139,19 @@ class Check(PropertyCheck):
                 self.findings.append(Finding(KF_FAILFAST, f"run raised {o['error']!r} while jobs {left[:6]} were created and "
                                              f"never settled (their Job rows stay RUNNING)",
                                              {"kind": kind, "spec": repr(o["spec"]), "limits": o["limits"], "unsettled": left}))
+        # C09_events_bounded on the real loop: events processed <= (7 + N) * N for N jobs created
+        worst = 0.0
+        for kind, o in runs:
+            ops = [op for op, _ in o.get("trace", [])]
+            n = sum(1 for op in ops if op[0] == "ONew")
+            pops = sum(1 for op in ops if op[0] == "OPop")
+            if n:
+                worst = max(worst, pops / float((7 + n) * n))
+            if pops > (7 + n) * n:
+                self.findings.append(Finding("event-bound:more-events-than-(7+N)N",
+                                             f"the event loop processed {pops} events for {n} jobs (> (7+N)*N = {(7 + n) * n})",
+                                             {"kind": kind, "spec": repr(o["spec"]), "limits": o["limits"]}))
+        self.stat("oracle", "max_events_over_bound_percent", int(worst * 100))
         self.stat("oracle", "failing_runs_with_unsettled_jobs", nu)
         self.stat("oracle", "runs", len(runs))
         self.stat("oracle", "deadlocks_in_feasible_runs", nd)
